@@ -36,6 +36,7 @@ type run struct {
 	OneCPU     bool   // GOMAXPROCS=1 per process
 	Tiers      string // "" both, or "thorough"
 	Carry      bool   // overlay carry-instrumented fiat sources (C01, C02); dropped if it does not build
+	Aux        string // an auxiliary program (props/<Aux>) built with the same overlay; its path is passed as VERIF_AUX_BIN (optional: skipped if it does not build)
 }
 
 var plans = map[string][]run{
@@ -55,6 +56,7 @@ var plans = map[string][]run{
 	},
 	"C01": {{Name: "default", Carry: true}},
 	"C02": {{Name: "default", Carry: true}},
+	"C15": {{Name: "default", Aux: "c15min"}},
 	"C05": {
 		{Name: "asm"},
 		{Name: "purego", Tags: []string{"purego"}},
@@ -160,6 +162,21 @@ func build(id string, r run, work string) (bin string, skipped []string) {
 		if err := cmd.Run(); err == nil {
 			for k := range skip {
 				skipped = append(skipped, k)
+			}
+			if r.Aux != "" {
+				aargs := append(append([]string{}, args[:len(args)-1]...), "./props/"+r.Aux)
+				for i := range aargs {
+					if aargs[i] == "-o" {
+						aargs[i+1] = filepath.Join(work, r.Name+"."+r.Aux+".bin")
+					}
+				}
+				acmd := exec.Command("go", aargs...)
+				acmd.Dir = verif
+				acmd.Env = goEnv()
+				if aout, aerr := acmd.CombinedOutput(); aerr != nil {
+					fmt.Fprintf(os.Stderr, "vdriver: auxiliary program %s does not build against the current tree; skipped\n%s\n", r.Aux, aout)
+					skipped = append(skipped, "aux:"+r.Aux)
+				}
 			}
 			sort.Strings(skipped)
 			return bin, skipped
@@ -282,6 +299,7 @@ func main() {
 						"VERIF_TIER="+tier, "VERIF_SEED="+seed, "VERIF_PARTIAL="+ppath,
 						fmt.Sprintf("VERIF_SHARD=%d/%d", s, n), "VERIF_RUN="+r.Name,
 						"VERIF_SKIPPED_HOOKS="+strings.Join(bs[i].skipped, ","),
+						"VERIF_AUX_BIN="+filepath.Join(work, r.Name+"."+r.Aux+".bin"),
 						"VERIF_WORK="+work,
 					)
 					if r.OneCPU {
